@@ -52,7 +52,22 @@ SIM_CHECKS = [
     ("C29", "model_checking", sim_text("Decides that no DATA/DATA_FRAG of a sample is emitted after source timestamp + lifespan (first transmission, repair, history)."), "5.1, 6 C29"),
 ]
 
+GRAPH_NOTE = ("Trusted: TLC, CommunityModules Json; the object is driven through cfg(dust_dds_verif) re-exports (no behaviour change); "
+              "the replay reaches a model state through one BFS path, so behaviour that depends on hidden state not in the projection "
+              "could be masked (the projections were extended where this was observed: waiter states for StatusWait).")
+
 OTHER_CHECKS = [
+    ("C32", "model_checking",
+     "StatusWait.tla models the status condition (changed, enabled, registered waiters) with WaitSet::wait split into its register / await steps; TLC checks NoLostWakeup for all interleavings of raise / read / set_enabled_statuses / register / await with two waiters, and every transition is replayed on the real DcpsStatusCondition with real notification channels (waiter state compared after every step). In addition WaitSetAsync::wait runs in the simulation against real status changes and set_enabled_statuses issued while it is blocked; Trace_Worker.tla requires it to return iff an attached condition is or becomes true.",
+     "5.6, 6 C32", GRAPH_NOTE, "explicit TLA+ spec + TLC; every transition replayed on the real object; simulation traces validated by TLC"),
+    ("C33", "model_checking",
+     "MC_Dispatch.tla defines the dispatch function (most specific enabled listener, DATA_ON_READERS precedence) and TLC enumerates all 72 (status kind x three masks x DATA_ON_READERS) configurations; each configuration is raised by a real event (match, data, deadline miss, rejection, incompatible QoS) in the simulation with recording listeners at reader/writer, subscriber/publisher and participant level: the callback must arrive at exactly the specified level, nowhere else, and once per status change.",
+     "5.6, 6 C33", "Trusted: TLC; recording listeners; a listener object is installed wherever a mask is non-empty; liveliness / sample-lost / inconsistent-topic statuses are not raised.",
+     "TLA+ dispatch function enumerated exhaustively by TLC; each configuration replayed end-to-end in the deterministic simulation"),
+    ("C34", "model_checking",
+     "Channels.tla models the oneshot, mpsc and notification channels with one action per critical section of the code (send, clone, drop of a sender, poll with a waker id); TLC checks ExactlyOnceFifo and NoLostWakeup for all interleavings (<= 2 senders, 3 sends, 4 polls, 2 wakers) and every transition is replayed on the real channels with counting wakers: poll results, received values and wake-up counts are compared after every step.",
+     "5.7, 6 C34", GRAPH_NOTE + " Thread-level linearizability is argued from the code structure (each operation is a single critical_section::with), not tested with real threads.",
+     "explicit TLA+ spec + TLC exhaustive; every transition replayed on the real channels"),
     ("C15", "model_checking",
      "Compat.tla states the DDS request/offered table and the partition matching rule as operators; TLC enumerates every pair of policy groups over all their abstract values (15 050 QoS records) and 693 partition-list pairs with the specification's verdict; both compatibility functions of the code are evaluated on every record (exhaustive) and sampled records / partition pairs are created as real writer/reader pairs in the deterministic simulation, where both sides must reach the specification's verdict.",
      "5.4, 6 C15",
